@@ -3,9 +3,11 @@ package main
 import (
 	"encoding/xml"
 	"fmt"
+	"io"
 	"math/rand"
 	"strconv"
 	"strings"
+	"time"
 
 	xmpp "gosrc.io/xmpp"
 	"gosrc.io/xmpp/stanza"
@@ -52,9 +54,52 @@ func (c10) Exec(c Case) []string {
 		return []string{"err:" + err.Error()}
 	}
 	client.Session = &xmpp.Session{SMState: xmpp.SMState{Id: "sm1", UnAckQueue: stanza.NewUnAckQueue()}}
+	// the real receive loop runs next to the senders, fed through a pipe: `req` and `inmsg` ops arrive there
+	pr, pw := io.Pipe()
+	st.dec = xml.NewDecoder(pr)
+	quit := make(chan struct{})
+	recvDone := make(chan struct{})
+	go func() {
+		defer close(recvDone)
+		defer func() { recover() }()
+		pw.Write([]byte("<?xml version='1.0'?><stream:stream xmlns='jabber:client' xmlns:stream='http://etherx.jabber.org/streams' version='1.0' id='s1'>"))
+	}()
+	if _, err := stanza.InitStream(st.GetDecoder()); err != nil {
+		return []string{"err:initstream"}
+	}
+	<-recvDone
+	recvDone = make(chan struct{})
+	go func() {
+		defer close(recvDone)
+		defer func() { recover() }()
+		xmpp.VerifRecv(client, quit)
+	}()
+	defer func() {
+		pw.Close()
+		select {
+		case <-recvDone:
+		case <-time.After(2 * time.Second):
+		}
+	}()
+	inbound := 0
 	var obs []string
 	for _, op := range c.Ops {
 		switch op[0] {
+		case "inmsg":
+			// an inbound stanza: counted by the receive loop, nothing is written
+			inbound++
+			pw.Write([]byte(fmt.Sprintf("<message id='in%d' type='chat'><body>x</body></message>", inbound)))
+			for dl := time.Now().Add(2 * time.Second); time.Now().Before(dl) && int(client.Session.SMState.Inbound) < inbound; {
+				time.Sleep(50 * time.Microsecond)
+			}
+		case "req":
+			// the server asks for an acknowledgement: wait for the answer to be written
+			before := st.writeCount()
+			pw.Write([]byte("<r xmlns='urn:xmpp:sm:3'/>"))
+			for dl := time.Now().Add(2 * time.Second); time.Now().Before(dl) && st.writeCount() == before; {
+				time.Sleep(50 * time.Microsecond)
+			}
+			time.Sleep(200 * time.Microsecond) // the loop goes on to route the element; nothing else is written
 		case "sendstanza", "sendnonza":
 			client.Send(c10packet(op[1], unhx(op[2])))
 		case "sendraw":
@@ -69,6 +114,12 @@ func (c10) Exec(c Case) []string {
 		obs = append(obs, "w:"+c10hexes(st.takeWrites())+"|q:"+c17slice(client.Session.SMState.UnAckQueue))
 	}
 	return obs
+}
+
+// c10req: the server's <r/> after `inbound` stanzas were received; the expected answer bytes travel with the op.
+func c10req(inbound int) []string {
+	b, _ := xml.Marshal(stanza.SMAnswer{XMLName: xml.Name{Space: stanza.NSStreamManagement, Local: "a"}, H: uint(inbound)})
+	return []string{"req", strconv.Itoa(inbound), hx(string(b))}
 }
 
 func c10op(kind, param string) []string {
@@ -90,6 +141,7 @@ func (c10) Generate(rng *rand.Rand, tier string, st *Stats) []Case {
 	mk("corpus-ack1", [][]string{{"sendraw", hx("<x/>")}, {"sendraw", hx("<y/>")}, {"ack", "1"}})
 	mk("corpus-stale", [][]string{{"sendraw", hx("<x/>")}, {"ack", "1"}, {"sendraw", hx("<y/>")}, {"ack", "1"}, {"ack", "2"}})
 	mk("corpus-answer-not-held", [][]string{c10op("a", "3"), c10op("r", ""), {"ack", "0"}})
+	mk("corpus-recv-answer-not-held", [][]string{{"sendraw", hx("<x/>")}, c10req(0), {"sendraw", hx("<y/>")}, {"ack", "1"}, {"inmsg"}, c10req(1), {"ack", "2"}})
 	// bounded-exhaustive: all histories of length <= L over a small alphabet
 	uniq := 0
 	alpha := []func() []string{
@@ -101,6 +153,7 @@ func (c10) Generate(rng *rand.Rand, tier string, st *Stats) []Case {
 		func() []string { return []string{"ack", "1"} },
 		func() []string { return []string{"ack", "2"} },
 		func() []string { return []string{"ack", "9"} },
+		func() []string { return c10req(0) },
 	}
 	L := 4
 	if tier == "thorough" {
@@ -135,9 +188,17 @@ func (c10) Generate(rng *rand.Rand, tier string, st *Stats) []Case {
 	for i := 0; i < R; i++ {
 		var ops [][]string
 		sent := 0
+		inb := 0
 		ln := 1 + rng.Intn(120)
 		for j := 0; j < ln; j++ {
-			switch x := rng.Intn(12); {
+			switch x := rng.Intn(14); {
+			case x == 12:
+				ops = append(ops, []string{"inmsg"})
+				inb++
+				st.Inc("op_inbound_stanza")
+			case x == 13:
+				ops = append(ops, c10req(inb))
+				st.Inc("op_inbound_r")
 			case x < 3:
 				ops = append(ops, []string{"sendraw", hx(fmt.Sprintf("<raw n='%d'>%s</raw>", sent, randPayload(rng)))})
 				sent++
